@@ -1,6 +1,7 @@
 ----------------------------- MODULE Gen_OpenDate -----------------------------
 EXTENDS OpenDate
 AllMD == { md \in (1..12) \X (1..31) : md[2] <= DaysInMonth(2000, md[1]) }
+TMD == { md \in AllMD : md[2] \in {1, 2, 10, 15, 20, 28, 29, 30, 31} }
 QMD == { md \in AllMD : md[2] \in {1, 15, 29, 30, 31} \/ md = <<3, 5>> \/ md = <<2, 28>> }
 (* references around the day itself (in a leap and a non-leap year), year ends, leap-day neighbourhood, century non-leap year *)
 Near(md, years) == UNION { { Ordinal(y, md[1], IF md[2] <= DaysInMonth(y, md[1]) THEN md[2] ELSE DaysInMonth(y, md[1])) + k : k \in {-1, 0, 1} } : y \in years }
